@@ -522,6 +522,7 @@ package hashgraph
 // decided before (sticky) or when no witness is undecided and strictly more than two thirds of the round's
 // validators have a decided witness.
 //@ ghost func DecidedWit(r *RoundInfo, x string) bool { return __in(x, r.CreatedEvents) && r.CreatedEvents[x].Witness && r.CreatedEvents[x].Famous != common.Undefined }
+//@ ghost func DecidedOrWit(r *RoundInfo, x string) bool { return __in(x, r.CreatedEvents) && r.CreatedEvents[x].Witness }
 //@ ghost func UndecidedWit(r *RoundInfo, x string) bool { return __in(x, r.CreatedEvents) && r.CreatedEvents[x].Witness && r.CreatedEvents[x].Famous == common.Undefined }
 
 //@ func (r *RoundInfo) WitnessesDecided(peerSet *peers.PeerSet) bool
@@ -565,6 +566,19 @@ package hashgraph
 
 // FrameWF: no nil peer, frame event or core event (what the consumers of a frame dereference).
 //@ ghost func FrameWF(f *Frame) bool { return len(f.Peers) < 2147483648 && (forall i int :: 0 <= i && i < len(f.Peers) ==> f.Peers[i] != nil && __allocated(f.Peers[i])) && (forall k int :: 0 <= k && k < len(f.Events) ==> f.Events[k] != nil && f.Events[k].Core != nil) }
+
+//@ iface func (s Store) SetRound(roundIndex int, roundInfo *RoundInfo) error
+//@   requires roundInfo != nil
+//@   modifies G_rounds(s), G_fault(s)
+//@   ensures[set]    ret0 == nil ==> __eq(G_rounds(s), __upd(old(G_rounds(s)), roundIndex, roundInfo))
+//@   ensures[refuse] ret0 != nil ==> __eq(G_rounds(s), old(G_rounds(s)))
+//@   ensures[nofix]  old(G_fault(s)) ==> G_fault(s)
+
+//@ iface func (s Store) LastRound() int
+//@   modifies nothing
+
+//@ iface func (s Store) CacheSize() int
+//@   modifies nothing
 
 //@ iface func (s Store) GetFrame(roundReceived int) (*Frame, error)
 //@   modifies nothing
@@ -803,6 +817,39 @@ package hashgraph
 //@   loop 1 invariant[prefix]  !(processedRounds == nil) && len(processedRounds) == __idx() && h.PendingRounds == old(h.PendingRounds) && __eq(__ranged(OrderedPendingRounds(nil)), old(h.PendingRounds.sortedItems)) && (forall k int :: 0 <= k && k < __idx() ==> processedRounds[k] == old(h.PendingRounds.sortedItems)[k].Index && old(h.PendingRounds.sortedItems)[k].Decided)
 //@   loop 1 invariant[flags]   (forall p *PendingRound :: p.Decided == old(p.Decided) && p.Index == old(p.Index)) && h.PendingRounds.wf()
 //@   loop 2 invariant[keep]    true
+
+// ------------------------------------------------------------------------------------------------
+// Fame decision (C01)
+
+//@ func (c *PendingRoundsCache) GetOrderedPendingRounds() OrderedPendingRounds
+//@   requires c != nil
+//@   modifies nothing
+//@   ensures[def] __eq(ret0, c.sortedItems)
+
+// DecideFame: the local decision rule. A witness x of round r gets its fame fixed (SetFame) only while it is still
+// undecided, only in a normal (non-coin) round j >= r+2, only by a round-j witness y whose tally over the round j-1
+// witnesses it strongly sees (under round j-1's validator set) has a side with strictly more than two thirds of
+// round j's validator count, and to that side's value (yes on ties). A round enters decidedRounds only when
+// WitnessesDecided holds for it.
+//@ func (h *Hashgraph) DecideFame() error
+//@   requires h != nil && h.PendingRounds != nil && h.PendingRounds.wf() && h.MemoOK()
+//@   ensures[memo] h.MemoOK()
+//@   call SetFame assert[target]         __recv() == rRoundInfo && __arg(0) == x
+//@   call SetFame assert[undecided-only] !DecidedWit(rRoundInfo, x)
+//@   call SetFame assert[not-coin-round] diff >= 2 && diff == j - roundIndex && __mod(diff, 4) != 0
+//@   call SetFame assert[supermajority]  3*t > 2*len(jPeerSet.ByPubKey) && jPeerSet == G_pset(h.Store)[j]
+//@   call SetFame assert[majority-value] __arg(1) == v && v == (yays >= nays) && t == __ite(yays >= nays, yays, nays) && yays + nays == len(ssWitnesses)
+//@   call SetFame assert[tally]          yays == __countseq(ssWitnesses, len(ssWitnesses), func(w string) bool { return __in(w, votes) && __in(x, votes[w]) && votes[w][x] })
+//@   call SetFame assert[voters]         jPrevPeerSet == G_pset(h.Store)[j-1] && (forall k int :: 0 <= k && k < len(ssWitnesses) ==> SSV(h, y, ssWitnesses[k], PSHexOf(jPrevPeerSet)) && DecidedOrWit(jPrevRoundInfo, ssWitnesses[k]))
+//@   loop 1 invariant[memo] h.MemoOK() && h.PendingRounds == old(h.PendingRounds)
+//@   loop 2 invariant[memo] h.MemoOK()
+//@   loop 3 invariant[memo] h.MemoOK()
+//@   loop 4 invariant[memo] h.MemoOK()
+//@   loop 3 invariant[open] !DecidedWit(rRoundInfo, x)
+//@   loop 4 invariant[open] !DecidedWit(rRoundInfo, x)
+//@   loop 5 invariant[memo] h.MemoOK()
+//@   loop 5 invariant[voters] forall k int :: 0 <= k && k < len(ssWitnesses) ==> SSV(h, y, ssWitnesses[k], PSHexOf(jPrevPeerSet)) && DecidedOrWit(jPrevRoundInfo, ssWitnesses[k])
+//@   loop 6 invariant[tally] yays + nays == __idx() && yays == __countseq(ssWitnesses, __idx(), func(w string) bool { return __in(w, votes) && __in(x, votes[w]) && votes[w][x] })
 
 // ------------------------------------------------------------------------------------------------
 // Signature pool (C05, C09)
